@@ -89,26 +89,26 @@ class ExprHeap:
         return o
 
     def _ghost(self, o: Obj):
-        n = o.oid
-        g = o.ghost
-        g["k"] = z3.Int(f"kind_{n}")
-        g["val0"] = z3.Real(f"val0_{n}")
-        g["def0"] = z3.Bool(f"def0_{n}")
-        g["cval"] = z3.Real(f"cval_{n}")
-        g["cfloat"] = z3.Bool(f"cfloat_{n}")
-        g["cnp"] = z3.Bool(f"cnp_{n}")
-        g["ident"] = z3.Int(f"ident_{n}")
-        g["id"] = z3.Int(f"id_{n}")
-        g["changed"] = z3.Bool(f"changed_{n}")
-        g["hasvar"] = z3.Function(f"hasvar_{n}", z3.IntSort(), z3.BoolSort())
-        g["twins"] = [o]
-        self.on_refine(self.I, o, propagate=False)
+        o.ghost = Ghost(o.oid)
+        o.ghost["twins"] = [o]
+
+    def kind_domains(self):
+        """Domain constraints of the kind variables (kind sets are tracked outside the solver while
+        the program runs; they only shrink, so the final sets imply every earlier one)."""
+        out = []
+        seen = set()
+        for o in self.nodes:
+            g = o.ghost
+            if "k" not in g or len(o.kinds) >= len(ALL12):
+                continue
+            k = g["k"]
+            if k.get_id() in seen:
+                continue
+            seen.add(k.get_id())
+            out.append(z3.Or([k == KCODE[x] for x in sorted(o.kinds)]))
+        return out
 
     def on_refine(self, I, o: Obj, propagate=True):
-        if "k" not in o.ghost:
-            return
-        if len(o.kinds) < len(ALL12):
-            I.ps.assume(z3.Or([o.ghost["k"] == KCODE[k] for k in sorted(o.kinds)]))
         if propagate:
             for t in o.ghost.get("twins", ()):
                 if t is not o and t.kinds != o.kinds:
@@ -120,8 +120,6 @@ class ExprHeap:
                 c = o.init.get("right")
                 if isinstance(c, Obj):
                     I.refine_kinds(c, ["ConstantExpression"])
-            if "EqualExpression" not in o.kinds:
-                pass
 
     # ------------------------------------------------------------------ field protocol
     NODE_FIELDS = (
@@ -411,11 +409,10 @@ class ExprHeap:
         m = I.new_obj(orig.kinds, lazy=True, label=orig.label + "'")
         m.fresh = True
         m.mirror = (sess, orig)
-        m.ghost = dict(orig.ghost)
+        m.ghost = MirrorGhost(orig.ghost)
         m.ghost["twins"] = orig.ghost.setdefault("twins", [orig])
         m.ghost["twins"].append(m)
         m.ghost["changed"] = False
-        m.ghost.pop("gap", None)
         sess["map"][id(orig)] = m
         self.nodes.append(m)
         # fields known at snapshot time are copied now (the snapshot must not see later writes)
@@ -798,6 +795,74 @@ class ExprHeap:
                 sub.append(self._hasvar(I, r, v, init, memo))
                 parts.append(z3.And(c, z3.Or(sub)))
         return z3.Or(parts) if parts else z3.BoolVal(False)
+
+
+class Ghost(dict):
+    """Ghost symbols of a node, created on first use."""
+
+    _SORTS = {
+        "k": ("kind", "Int"),
+        "val0": ("val0", "Real"),
+        "def0": ("def0", "Bool"),
+        "cval": ("cval", "Real"),
+        "cfloat": ("cfloat", "Bool"),
+        "cnp": ("cnp", "Bool"),
+        "ident": ("ident", "Int"),
+        "id": ("id", "Int"),
+        "changed": ("changed", "Bool"),
+    }
+
+    def __init__(self, oid):
+        super().__init__()
+        self.oid = oid
+
+    def __missing__(self, key):
+        if key == "hasvar":
+            v = z3.Function(f"hasvar_{self.oid}", z3.IntSort(), z3.BoolSort())
+        elif key in self._SORTS:
+            base, sort = self._SORTS[key]
+            name = f"{base}_{self.oid}"
+            v = z3.Int(name) if sort == "Int" else z3.Real(name) if sort == "Real" else z3.Bool(name)
+        else:
+            raise KeyError(key)
+        self[key] = v
+        return v
+
+    def __contains__(self, key):
+        return dict.__contains__(self, key) or key in self._SORTS or key == "hasvar"
+
+    def get(self, key, default=None):
+        if dict.__contains__(self, key):
+            return dict.__getitem__(self, key)
+        if key in self._SORTS or key == "hasvar":
+            return self[key]
+        return default
+
+
+class MirrorGhost(dict):
+    """Ghost of a clone: same symbols as the original (isomorphic copy), own bookkeeping."""
+
+    def __init__(self, base):
+        super().__init__()
+        self.base = base
+
+    def __missing__(self, key):
+        if key in ("gap", "is_ghost") or key.startswith("ghost_"):
+            raise KeyError(key)
+        return self.base[key]
+
+    def __contains__(self, key):
+        if dict.__contains__(self, key):
+            return True
+        if key in ("gap", "is_ghost") or key.startswith("ghost_"):
+            return False
+        return key in self.base
+
+    def get(self, key, default=None):
+        try:
+            return self[key]
+        except KeyError:
+            return default
 
 
 class StructureError(Exception):
